@@ -37,7 +37,9 @@ static void build(void) {
     /* different requests that share one allocator size class: 3 pages then 4 pages, 4097 bytes then 2 pages, 5 pages then 8 */
     "c3r j0 c7r j1 c3r j2", "c8r j0 c2r j1 c8y j2", "c9r j0 c4r j1 c9r c3r j3 j2", "c3y c7y j0 j1 c7r c3r j2 j3",
     /* a custom stack that also carries custom data (scheduling hint), recycled as default and as custom stacks afterwards */
-    "chr j0 c0y c0y c0y j1 j2 j3", "chy c7r j0 j1 chr c7y j2 j3", "chr j0 chr j1 c0r c7r j2 j3", 0 };
+    "chr j0 c0y c0y c0y j1 j2 j3", "chy c7r j0 j1 chr c7y j2 j3", "chr j0 chr j1 c0r c7r j2 j3",
+    /* a cancellation request sent to a thread that finished and waits for a late join: its record (exit value) stays as it is */
+    "c0r y k0 c0r j0 j1", "c0r c2r y k1 k0 j0 j1", "c0y k0 c0r j0 j1", 0 };
   for (int tier = 0; tier < 2; tier++) for (int i = 0; S[i]; i++) for (int W = 1; W <= (tier ? 3 : 2); W++) {
     int len = strlen(S[i]); int K = 2;
     if (tier && len <= 14 && W == 2) K = 3;
